@@ -14,6 +14,7 @@ All theorems quantify over EVERY value the float-derived quantities may take ins
 width of the entry point's argument type.
 -/
 import PcProofs.ParamsL2Dr
+import PcProofs.ParamsL2Tight
 
 namespace Pc.C12Params
 
@@ -38,6 +39,16 @@ theorem gourdon_params_in_range (x : ℕ) (threads : ℤ) (ay az : ℚ) (fo : GF
 theorem gourdon_accepted_x_bound (x : ℕ) (ay az : ℚ) (fo : GFloats) (henv : GourdonEnv x ay az fo)
     (h : (x : ℤ) ≤ fo.maxX) : x < 2 ^ 125 :=
   x_lt_of_range_check (by linarith [henv.1]) henv.2.1 henv.2.2.2.2.2.2.1 h
+
+/-- THE EXACT GUARANTEE OF THE RANGE CHECK (api.cpp 181-196 promises "x / y <= 2^62"): for every accepted `x`, every tuning
+    and every float outcome in the envelope, `⌊√x⌋ < 2^62 + 2^22` and the sieve limit satisfies `x / y ≤ 2^62 + 2^33`
+    — NOT `≤ 2^62`: the streams observe `x / y = 2^62 + 3.5·10^9` on the real code (alpha_y = 1.042, x ≈ 1.05·10^28), because
+    `y = ⌊⌊x^(1/3)⌋·alpha_y⌋` is rounded down twice while `get_max_x` is computed from the unrounded `x^(1/3)·alpha_y`. -/
+theorem range_check_guarantee (x : ℕ) (ay az : ℚ) (fo : GFloats) (hx2 : 2 ≤ x) (henv : GourdonEnv x ay az fo)
+    (h : (x : ℤ) ≤ fo.maxX) :
+    isqrtN x < 2 ^ 62 + 2 ^ 22 ∧ (x : ℤ) / gY x fo.v ≤ 2 ^ 62 + 2 ^ 33 :=
+  ⟨isqrt_lt_of_range_check (by linarith [henv.1]) henv.2.1 henv.2.2.2.2.2.2.1 h,
+   xy_le_of_range_check hx2 henv.1 henv.2.1 henv.2.2.2.2.1 henv.2.2.2.2.2.2.1 h⟩
 
 /-- `pi_gourdon_64(x)` (no range check) for EVERY `2 ≤ x < 2^63`: no check fails — in particular the unconditional
     `FactorTableD<uint16_t>` of the 64-bit `D` never throws — and the same ranges hold. -/
@@ -175,6 +186,7 @@ end Pc.C12Params
 
 #print axioms Pc.C12Params.gourdon_params_in_range
 #print axioms Pc.C12Params.gourdon_accepted_x_bound
+#print axioms Pc.C12Params.range_check_guarantee
 #print axioms Pc.C12Params.gourdon64_params_in_range
 #print axioms Pc.C12Params.gourdon_params_wide_eq_narrow
 #print axioms Pc.C12Params.xstar_range
